@@ -93,9 +93,22 @@ def code_call(self, n, env):
                 d = self.eng.field_decl(recv.s.cls, f.attr)
                 if d is not None and isinstance(d[1], FunS):
                     return self.call_uninterpreted(V(None, d[1]), f.attr, [self.ev(a, env) for a in n.args], line)
+                if d is not None and isinstance(d[1], RefS):
+                    # a field holding a callable object: obj.field(args) is field.__call__(args)
+                    target = self.hread(env, recv, f.attr)
+                    cfc = self.eng.find_contract(d[1].cls, "__call__")
+                    if cfc is None:
+                        raise E.Unsupported("%s.%s is called but %s has no __call__ contract" % (recv.s.cls, f.attr, d[1].cls))
+                    args_ = [self.ev(a, env) for a in n.args]
+                    if getattr(self, "under_binder", 0):
+                        return self.spec_call_pure(cfc, target, args_, env)
+                    return self.call_contract(cfc, target, args_, kwargs, line, f.attr)
                 raise E.Unsupported("method %s.%s has no contract in unit %s (line %d)" % (recv.s.cls, f.attr, self.unit.name, line))
             if fc.kind in ("static", "classmethod"):
                 return self.call_contract(fc, None, [self.ev(a, env) for a in n.args], kwargs, line, f.attr)
+            if getattr(self, "under_binder", 0):
+                # inside a comprehension element / quantified expression: only pure, definable methods (no fresh result constant)
+                return self.spec_call_pure(fc, recv, [self.ev(a, env) for a in n.args], env)
             return self.call_contract(fc, recv, [self.ev(a, env) for a in n.args], kwargs, line, f.attr)
         if recv.s == STR:
             dotted = "str." + f.attr
@@ -135,7 +148,9 @@ def bind_args(self, fc, args, kwargs, env, fn_node=None):
         bound[k] = self.ev(node, env) if isinstance(node, ast.AST) else node
     missing = [p for p in names if p not in bound]
     if missing:
-        defaults = self.defaults_of(fc)
+        defaults = dict(self.defaults_of(fc))
+        for k_, e_ in getattr(fc, "default_exprs", {}).items():
+            defaults[k_] = ast.parse(e_, mode="eval").body
         for p in missing:
             if p not in defaults:
                 raise E.Unsupported("argument %s of %s missing and no default known" % (p, fc.qualname))
@@ -309,6 +324,9 @@ def builtin_call(self, name, n, env):
     line = getattr(n, "lineno", 0)
     if name == "len":
         v = self.ev(n.args[0], env)
+        if isinstance(v.s, OptS) and isinstance(v.s.inner, (SeqS, MapS)):
+            self.guard(z3.Not(opt_is_none(v.t)), "TypeError", line)
+            v = V(opt_val(v.t), v.s.inner)
         if isinstance(v.s, SeqS):
             return V(seq_len(v.t), INT) if v.t is not None else V(z3.IntVal(0), INT)
         if isinstance(v.s, MapS):
@@ -703,7 +721,12 @@ def apply_macro(self, name, args, env):
         sub.old = E.Env(dict(zip(params, args)), o.heap, o.alloc, True, None, None, None, dict(binders))
         sub.old.old = sub.old
     node = ast.parse(expr.strip(), mode="eval").body
-    return self.ev(node, sub)
+    saved_cb = getattr(self, "collect_bounds", None)
+    self.collect_bounds = None          # contract text: subscripts are specification-level (total), not code
+    try:
+        return self.ev(node, sub)
+    finally:
+        self.collect_bounds = saved_cb
 
 
 def quantifier(self, n, env, is_forall):
@@ -752,11 +775,17 @@ def spec_call_pure(self, fc, recv, args, env):
         raise E.StaleContract("%s is not usable in a contract (needs a single `result == ...` definition and no modifies)" % fc.qualname)
     expr = defs[0].split("==", 1)[1]
     names = [p for p in fc.params]
+    args = [ops.coerce(self.fix_empty(a, fc.params[p]), fc.params[p]) if not isinstance(fc.params[p], FunS) else a for p, a in zip(names, args)]
     loc = dict(zip(names, args))
     loc["self"] = recv
     sub = E.Env(loc, env.heap, env.alloc, True, None, None, None, dict(env.binders))
     node = ast.parse(expr.strip(), mode="eval").body
-    v = self.ev(node, sub)
+    saved_cb = getattr(self, "collect_bounds", None)
+    self.collect_bounds = None
+    try:
+        v = self.ev(node, sub)
+    finally:
+        self.collect_bounds = saved_cb
     return ops.coerce(v, fc.returns) if fc.returns not in (None, NONE) else v
 
 
